@@ -45,7 +45,7 @@ Inductive scheme := PC | PCrk4 | PCrk | TdvpMuVmf | TdvpVmf | TdvpMuCmf | TdvpPs
 Inductive opname :=
   | New | Copy | MetacopyFill | ToComplex | Conj | ConjTrans | Scale | Add | Distance | Apply | Contract
   | CompressCopy | CanoCopy | Expectation | Expectations | Rdm | Entropy | Norm | Dense
-  | Evolve (s : scheme) | EvolveDispatch | EvolveExact | FromMps | CompressedSum | Expand
+  | Evolve (s : scheme) | EvolveDispatch | EvolveExact | FromMps | CompressedSum | Expand | Reload
   | ScaleIn | ToComplexIn | CanonicaliseIn | CompressIn | NormalizeIn | SetItem | SetCoeff | PokeSites
   | Optimize.
 
@@ -55,13 +55,18 @@ Record sig := mkSig { s_cat : cat; s_rewrite : list field; s_write : list field;
 Definition gauge_fields : list field := [FSite; FLabel; FMeta].      (* ensure_left/right_canonical *)
 Definition fold_fields : list field := [FSite; FCoeff; FMeta].       (* Mps.add / Mps.distance prefactor folding *)
 
+(* `new.coeff = self.coeff` (metacopy, from_mps) hands the prefactor OBJECT on: harmless for a python scalar, a shared
+   mutable container when the prefactor is a 0-d ndarray (TTNBase.load).  Declared sharing, like qntot / real conj. *)
+Definition cshare : list field := [FCoeff].
+
 Definition chain_sig (o : opname) : sig :=
   match o with
-  | New | Copy | MetacopyFill | ToComplex | Scale | Apply | Contract | CompressCopy | CanoCopy
-  | EvolveExact | EvolveDispatch => mkSig Derive [] [] []
-  | Conj => mkSig Derive [] [] [FSite]            (* ndarray.conj() of a real buffer is the buffer itself *)
-  | ConjTrans => mkSig Derive [] [] [FSite]       (* moveaxis(...).conj(): a transposed view for real operators *)
-  | Add | CompressedSum | Expand => mkSig Derive fold_fields [] []   (* expand_bond_dimension: mps + expander folds *)
+  | New | EvolveExact | EvolveDispatch | Reload => mkSig Derive [] [] []
+  | Copy | MetacopyFill | ToComplex | Scale | Apply | Contract | CompressCopy | CanoCopy => mkSig Derive [] [] cshare
+  | Conj => mkSig Derive [] [] [FSite; FCoeff]    (* ndarray.conj() of a real buffer is the buffer itself *)
+  | ConjTrans => mkSig Derive [] [] [FSite; FCoeff] (* moveaxis(...).conj(): a transposed view for real operators *)
+  | Add => mkSig Derive fold_fields [] cshare
+  | CompressedSum | Expand => mkSig Derive fold_fields [] []   (* expand_bond_dimension: mps + expander folds *)
   | Distance => mkSig Observe fold_fields [] []
   | Expectation | Expectations | Rdm | Entropy | Norm | Dense => mkSig Observe [] [] []
   | Evolve PC | Evolve PCrk4 | Evolve PCrk => mkSig Derive fold_fields [] []
@@ -70,7 +75,7 @@ Definition chain_sig (o : opname) : sig :=
      and qnidx/to_right of the input are rewritten, tensors x prefactor is not *)
   | Evolve TdvpMuVmf | Evolve TdvpVmf | Evolve TdvpMuCmf | Evolve TdvpPs | Evolve TdvpPs2 =>
       mkSig Derive gauge_fields [] []
-  | FromMps => mkSig Derive [] [] [FQntot]        (* MpDm.from_mps: mpo.qntot = mps.qntot *)
+  | FromMps => mkSig Derive [] [] [FQntot; FCoeff]  (* MpDm.from_mps: mpo.qntot = mps.qntot; mpo.coeff = mps.coeff *)
   | ScaleIn | ToComplexIn => mkSig Mutate [] [FSite; FCoeff; FMeta] []
   | CanonicaliseIn | CompressIn => mkSig Mutate [] [FSite; FLabel; FMeta] []
   | NormalizeIn => mkSig Mutate [] [FSite; FCoeff; FMeta] []
@@ -81,8 +86,9 @@ Definition chain_sig (o : opname) : sig :=
 
 Definition tree_sig (o : opname) : sig :=
   match o with
-  | New | Copy | MetacopyFill | ToComplex | Scale | Add | Apply | Contract | CompressCopy | CanoCopy
-  | CompressedSum | Expand | Evolve _ | EvolveDispatch => mkSig Derive [] [] []
+  | New | Reload | Expand => mkSig Derive [] [] []
+  | CompressedSum | Copy | MetacopyFill | ToComplex | Scale | Add | Apply | Contract | CompressCopy | CanoCopy
+  | Evolve _ | EvolveDispatch => mkSig Derive [] [] cshare
   | Distance | Expectation | Expectations | Rdm | Entropy | Norm | Dense => mkSig Observe [] [] []
   | ScaleIn | ToComplexIn => mkSig Mutate [] [FSite; FLabel] []
   | CanonicaliseIn | CompressIn => mkSig Mutate [] [FSite; FLabel] []
@@ -280,7 +286,7 @@ Definition sig_ok (e : entry) : bool :=
       | None => false
       | Some (w, o) =>
           let sg := sig_of w o in
-          is_derive (s_cat sg) && is_nil (s_share sg) &&
+          is_derive (s_cat sg) && fsubset (s_share sg) cshare &&   (* at most the prefactor object is handed on *)
           negb (is_nil (e_first e)) && negb (is_nil (e_ret e)) &&
           forallb origin_fresh (e_ret e) &&            (* the returned state is never the input itself *)
           forallb (write_allowed sg) (e_writes e)      (* no store to the input, only declared rewrites *)
@@ -433,6 +439,22 @@ Definition gsig_of (w : world) (o : opname) : sig :=
               mkSig (s_cat h) (finter (s_rewrite g) (s_rewrite h)) (finter (s_write g) (s_write h)) (finter (s_share g) (s_share h))
   | None => sig_of w o
   end.
+
+(* ------------------------------------------------------------------ in-place updates never hit a shareable field
+   The frame theorem needs "declared-shared buffers are never written" ([sp_shared_kept]).  At the level of the
+   generated rows: a field whose EXISTING container some in-place method updates (`x.f op= e`, in-place ufunc;
+   [o_inplace] of its Target rows) must not be a field that any operation of the same world hands on to its result
+   (declared sharing).  E.g. trees share the prefactor object (0-d ndarray after load): `tn.coeff /= ...` in
+   normalize would write through it; rebinding `tn.coeff = new_coeff` does not. *)
+Definition all_opnames : list opname :=
+  [New; Copy; MetacopyFill; ToComplex; Conj; ConjTrans; Scale; Add; Distance; Apply; Contract; CompressCopy; CanoCopy;
+   Expectation; Expectations; Rdm; Entropy; Norm; Dense; Evolve PC; Evolve PCrk4; Evolve PCrk; Evolve TdvpMuVmf;
+   Evolve TdvpVmf; Evolve TdvpMuCmf; Evolve TdvpPs; Evolve TdvpPs2; EvolveDispatch; EvolveExact; FromMps; CompressedSum;
+   Expand; Reload; ScaleIn; ToComplexIn; CanonicaliseIn; CompressIn; NormalizeIn; SetItem; SetCoeff; PokeSites; Optimize].
+Definition shared_fields (w : world) : list field := fdedup (flat_map (fun o => s_share (gsig_of w o)) all_opnames).
+Definition inplace_fields (w : world) : list field :=
+  fdedup (flat_map (fun o => flat_map o_inplace (rows_of (op_rows w o) false)) all_opnames).
+Definition inplace_ok (w : world) : bool := forallb (fun f => negb (fmem f (shared_fields w))) (inplace_fields w).
 
 (* ------------------------------------------------------------------ observed effects vs signatures *)
 Record obs := mkObs {
